@@ -8,6 +8,12 @@ import AfkakProofs.BrokerClient.Compose
 import AfkakProofs.BrokerClient.Term
 import AfkakProofs.BrokerClient.SyncFlat
 import AfkakProofs.BrokerClient.FuelFree
+import AfkakProofs.BrokerClient.Answered
+import AfkakProofs.BrokerClient.NeverDropped
+import AfkakProofs.BrokerClient.Down
+import AfkakProofs.BrokerClient.AllFired
+import AfkakProofs.BrokerClient.Addr
+import AfkakProofs.BrokerClient.ReentWrites
 /-!
 # C10 — after a connection drop, unanswered requests are re-sent once, in order; reconnect, back-off, close
 Property theorems only; helper lemmas live in `AfkakProofs/BrokerClient/`.
@@ -660,6 +666,147 @@ example : ((Afkak.BrokerClientR.traceRWith ⟨fun _ => 1⟩ 20 (Afkak.BrokerClie
       .ob (.fire 3 4 (.err .clientError)), .hookEnd, .hookEnd],
      [.ob .down]] := by decide +kernel
 
+
+/-! ## Every outstanding request can still be answered, and none is silently dropped -/
+
+/-- "Once a connection succeeds and the broker answers, every outstanding request is answered", for a connection that is
+    readable and at a frame boundary, in ANY state satisfying the invariant: one reply frame per table entry (`reply id`:
+    any packet that carries the id and that a Kafka size can announce), in table order, empties the table, and fires
+    exactly the uncancelled entries, each with its own reply, in that order (the late reply to a cancelled request only
+    removes its tombstone). -/
+theorem C10_answered_when_connected (cfg : Cfg) (reply : Int → Bytes) (s : St) (c : Nat) (hs : SInv s)
+    (hp : s.proto = some c) (hl : s.losing = false) (hb : s.rbuf = []) (hg : ∀ r ∈ s.reqs, GoodReply reply r.id) :
+    run cfg s (replies reply s.reqs) = { s with reqs := [] } ∧
+    obs cfg s (replies reply s.reqs)
+      = (s.reqs.filter (fun r => !r.cancelled)).map (fun r => .fire r.serial r.id (.ok (reply r.id))) :=
+  replies_run cfg reply c s.reqs s rfl hs.ids hp hl hb hg
+
+/-- Liveness as a bounded continuation: after ANY event list (any number of drops, connect failures, back-offs,
+    cancellations, new requests, write failures, partial frames, over-long prefixes, `disconnect()`) that leaves the client
+    open, the explicit continuation `rescue` — the transport's write works, a connection that exists goes away, a pending
+    back-off timer runs down, the connection attempt succeeds, and the broker sends one reply frame per request that expects
+    one — ends with an EMPTY table, the client still open, and every request that was outstanding (in the table, not
+    cancelled) ANSWERED: `ok (reply id)` if it expects a reply, `None` on being written if it does not.  With
+    `C06_exactly_once` (handed out = fired ⊎ in the table uncancelled) every Deferred handed out has then fired. -/
+theorem C10_eventually_answered (cfg : Cfg) (host port : Nat) (evs : List Ev) (reply : Int → Bytes) :
+    let s := run cfg (St.init host port) evs
+    s.closed = false → (∀ r ∈ s.reqs, GoodReply reply r.id) →
+    (run cfg s (rescue cfg reply s)).reqs = [] ∧ (run cfg s (rescue cfg reply s)).closed = false ∧
+    ∀ r ∈ s.reqs, r.cancelled = false →
+      (r.expect = true → Ob.fire r.serial r.id (.ok (reply r.id)) ∈ obs cfg s (rescue cfg reply s)) ∧
+      (r.expect = false → Ob.fire r.serial r.id .none ∈ obs cfg s (rescue cfg reply s)) := by
+  intro s hc hg
+  exact rescue_answers cfg reply s (sinv_run cfg (St.init host port) evs (sinv_init host port)) hc hg
+
+/-- non-vacuity: requests 5 (reply expected) and 6 (none) made; connection 0 lost inside the reply to 5; the next attempt
+    fails and the client is backing off.  `rescue` = write works, the timer runs down, the attempt succeeds, one reply. -/
+example :
+    let reply : Int → Bytes := fun i => if i = 5 then [0, 0, 0, 5, 7] else [0, 0, 0, 6]
+    let s := run ⟨fun _ => 2⟩ (St.init 1 9092)
+      [.make 5 true, .connOk, .make 6 true, .cancel 6, .bytesIn [0, 0, 0, 5, 0, 0], .lost, .make 7 false, .connFail]
+    s.closed = false ∧ s.reqs.map (·.id) = [5, 7] ∧
+    rescue ⟨fun _ => 2⟩ reply s = [.writeFail false, .advance 2, .connOk, .bytesIn [0, 0, 0, 5, 0, 0, 0, 5, 7]] ∧
+    obs ⟨fun _ => 2⟩ s (rescue ⟨fun _ => 2⟩ reply s)
+      = [.connect 1 9092, .write 1 0 5, .write 1 2 7, .fire 2 7 .none, .fire 0 5 (.ok [0, 0, 0, 5, 7])] := by
+  decide +kernel
+example : GoodReply (fun i => if i = 5 then [0, 0, 0, 5, 7] else [0, 0, 0, 6]) 5 := by
+  constructor <;> decide +kernel
+
+/-- … consequently, after that continuation EVERY Deferred handed out so far has fired (each exactly once, by
+    `C06_at_most_once`): nothing the caller ever received from `makeRequest` is left hanging. -/
+theorem C10_eventually_all_fired (cfg : Cfg) (host port : Nat) (evs : List Ev) (reply : Int → Bytes)
+    (hc : (run cfg (St.init host port) evs).closed = false)
+    (hg : ∀ r ∈ (run cfg (St.init host port) evs).reqs, GoodReply reply r.id) :
+    ∀ k, k < (run cfg (St.init host port) evs).nmake →
+      k ∈ Afkak.Monitor.C06.firedOf
+        (trace cfg (St.init host port) (evs ++ rescue cfg reply (run cfg (St.init host port) evs))) :=
+  rescue_all_fired cfg host port evs reply hc hg
+
+
+/-- … and that is the ONLY way out of the table: in ANY state, for ANY event, a request that is in the table and not
+    cancelled is still there afterwards (same serial, id, reply flag; not cancelled) — or its Deferred fired in that very
+    step.  No request is silently dropped. -/
+theorem C10_never_silently_dropped (cfg : Cfg) (s : St) (e : Ev) (r : Req) (hr : r ∈ s.reqs) (hc : r.cancelled = false) :
+    (∃ r' ∈ (step cfg s e).1.reqs, r'.serial = r.serial ∧ r'.id = r.id ∧ r'.expect = r.expect ∧ r'.cancelled = false) ∨
+    (∃ res, Ob.fire r.serial r.id res ∈ (step cfg s e).2) :=
+  never_dropped cfg s e r hr hc
+
+
+/-- The Deferred returned by `close()` (`_dDown`), in EVERY state `close()` can be called in (connected, connecting, backing
+    off, idle) and whatever follows: over any event list the number of times it has fired is 1 if the client is closed
+    and has no connection, 0 otherwise — so it fires exactly once, at the moment the client is both closed and
+    disconnected (at once when `close()` finds no connection, else when the dropped connection is reported lost), never
+    before `close()` and never again. -/
+theorem C10_down_exactly_once (cfg : Cfg) (host port : Nat) (evs : List Ev) :
+    downs (obs cfg (St.init host port) evs)
+      = if (run cfg (St.init host port) evs).closed && (run cfg (St.init host port) evs).proto.isNone then 1 else 0 := by
+  have h := down_run cfg evs (St.init host port) (sinv_init host port)
+  have h0 : isDown (St.init host port) = 0 := by simp [isDown, St.init]
+  rw [h0] at h
+  simpa [isDown] using h
+
+example : downs (obs ⟨fun _ => 1⟩ (St.init 1 9092) [.make 5 true, .connOk, .close, .make 6 true]) = 0 ∧
+    downs (obs ⟨fun _ => 1⟩ (St.init 1 9092) [.make 5 true, .connOk, .close, .make 6 true, .lost, .lost, .connOk]) = 1 ∧
+    downs (obs ⟨fun _ => 1⟩ (St.init 1 9092) [.make 5 true, .connFail, .close, .advance 5]) = 1 := by decide +kernel
+
+
+/-- `disconnect()` in EVERY state.  Not connected (idle, connecting, backing off, closed and down): nothing happens at
+    all — in particular a pending attempt or back-off timer is left alone.  Connected (reading, already told to go, or
+    closing): `loseConnection()` on the transport and nothing else — no Deferred fires, the table, the connector, the
+    failure count are untouched; what the loss of that connection then does is `C10_reconnect_iff` / `C10_resend_exact`. -/
+theorem C10_disconnect_every_state (cfg : Cfg) (s : St) :
+    (s.proto = none → step cfg s .disconnect = (s, [])) ∧
+    (∀ c, s.proto = some c → step cfg s .disconnect = ({ s with losing := true }, [.lose c])) := by
+  constructor
+  · intro h; simp [step, h]
+  · intro c h; simp [step, h]
+
+/-- `updateMetadata()` in EVERY state: no observation, nothing changes but the address held — an existing connection is
+    not dropped, an attempt in flight is not redirected, a running back-off timer is not touched — and whenever the
+    client dials afterwards (any event, any state) it dials the address it holds at that moment, i.e. the one last
+    announced. -/
+theorem C10_updateMetadata_every_state (cfg : Cfg) (s : St) (host port : Nat) :
+    step cfg s (.updateMetadata host port) = ({ s with host := host, port := port }, []) ∧
+    ∀ (t : St) (e : Ev) (a b : Nat), Ob.connect a b ∈ (step cfg t e).2 → a = t.host ∧ b = t.port :=
+  ⟨rfl, fun t e a b h => connect_addr cfg t e a b h⟩
+
+example : (trace ⟨fun _ => 1⟩ (St.init 1 9092)
+      [.make 5 true, .updateMetadata 2 9093, .connFail, .updateMetadata 3 9094, .disconnect, .advance 1, .connOk,
+       .updateMetadata 4 9095, .disconnect, .lost]).map (·.2) =
+    [[.connect 1 9092], [], [.setTimer 1], [], [], [.connect 3 9094], [.write 0 0 5], [], [.lose 0], [.connect 4 9095]] := by
+  decide +kernel
+
+
+/-! OBSERVED BEHAVIOUR with re-entrant callbacks (audit round 2, C10-1; reproduced on the real class by
+`/tmp/audit2/brokerclient/queuejump.py`): when a connection comes up `_sendQueued` fires the Deferred of a request that
+expects no reply in the middle of its loop; a `makeRequest` made from that callback finds `self.proto` set and is written
+AT ONCE, ahead of older requests still waiting in the queue.  Issue order 1 (no reply; its callback makes 4), 2, 3 — wire
+order 1, 4, 2, 3.  The requests overtaken are being sent for the first time on this connection in table order among
+themselves (a request that fires in the loop and was sent before can only be one whose write failed), so "re-sent in the
+order originally issued" is not contradicted; but `C10_resend_exact` ("what is written is exactly the table, in table order")
+is a statement about runs WITHOUT callbacks and does NOT extend to runs with them.  `r10` accepts this run. -/
+example : ((Afkak.BrokerClientR.traceR ⟨fun _ => 1⟩ (Afkak.BrokerClientR.StR.init 1 9092)
+      [.make 1 false (some [.make 4 true]), .make 2 true none, .make 3 true none, .flat .connOk]).map (·.2)) =
+    [[.ob (.connect 1 9092), .made 0 1], [.made 1 2], [.made 2 3],
+     [.ob (.write 0 0 1), .ob (.fire 0 1 .none), .hookBegin 0, .ob (.write 0 3 4), .made 3 4, .hookEnd,
+      .ob (.write 0 1 2), .ob (.write 0 2 3)]] := by decide +kernel
+
+
+/-- What IS proved about the writes of the step that brings a connection up, with re-entrant callbacks (audit round 2,
+    C10-1, third clause): in ANY state of the re-entrant model, with any fuel, every request written during a `connOk`
+    step — by `_sendQueued` itself or by callbacks nested to any depth — is a request that was in the table when the
+    connection came up, or one made during the step (its serial is at least the serial counter at that moment): nothing
+    that had left the table (answered, cancelled before being sent, fired) is written, and the only requests that can
+    overtake the queue are new ones.  With `C10_reentrant` (once per connection, never after firing) each is written at
+    most once.  NOT proved: that the table members are written in table order (they are: `sendLoop` walks the snapshot). -/
+theorem C10_reentrant_connect_writes (cfg : Cfg) (fuel : Nat) (s : Afkak.BrokerClientR.StR) (conn k : Nat) (id : Int)
+    (h : Afkak.BrokerClientR.ObR.ob (.write conn k id) ∈ (Afkak.BrokerClientR.stepRWith cfg fuel s (.flat .connOk)).2 ∨
+         Afkak.BrokerClientR.ObR.ob (.writeLost conn k id) ∈ (Afkak.BrokerClientR.stepRWith cfg fuel s (.flat .connOk)).2) :
+    (∃ r ∈ s.core.reqs, r.serial = k) ∨ s.core.nmake ≤ k := by
+  rcases h with h | h
+  · exact Afkak.BrokerClientR.connOk_writes cfg fuel s _ k h ⟨conn, id, Or.inl rfl⟩
+  · exact Afkak.BrokerClientR.connOk_writes cfg fuel s _ k h ⟨conn, id, Or.inr rfl⟩
+
 end Afkak.Props.C10
 
 /- OBLIGATIONS
@@ -680,6 +827,14 @@ C10_sync_outcome_is_flat
 C10_reentrant
 C10_reentrant_fuel_free
 C10_reentrant_driver
+C10_answered_when_connected
+C10_eventually_answered
+C10_eventually_all_fired
+C10_never_silently_dropped
+C10_down_exactly_once
+C10_disconnect_every_state
+C10_updateMetadata_every_state
+C10_reentrant_connect_writes
 -/
 /- OPEN_STATEMENTS
 -/
